@@ -25,8 +25,12 @@ def build_groups(path):
         g1 = ContainerGroup.create(ws, name="g1")
         g2 = ContainerGroup.create(ws, name="g2", parent=g1, allow_move=False)
         ContainerGroup.create(ws, name="g3-empty", parent=g1)
+        g4 = ContainerGroup.create(ws, name="g4", parent=g2)
+        g5 = ContainerGroup.create(ws, name="g5", parent=g4, public=False)
         p = Points.create(ws, name="pts-in-g2", parent=g2, vertices=np.array([[0.0, 0, 0], [1, 0, 0], [2, 1, 0]]))
         p.add_data({"dA": {"values": _ints(3)}})
+        q = Points.create(ws, name="pts-in-g5", parent=g5, vertices=np.array([[0.0, 0, 1], [1, 0, 1]]))
+        q.add_data({"dB": {"values": _ints(2)}})
         Points.create(ws, name="pts-top", vertices=np.array([[5.0, 5, 5], [6, 6, 6]]))
         g1.add_comment("a comment", author="me")
 
@@ -631,7 +635,6 @@ def to_spec(sc):
             raise ValueError("entity without Type link")
         if kind == "data" and (conts or kids):
             raise ValueError("data with children")
-        kids.sort(key=lambda t: t["u"])
         return {"u": ords[name], "k": kind, "attrs": amap(nd, name), "ty": ty, "dsets": dsets, "pgs": pgs, "conts": conts, "kids": kids}
 
     ra = tl["Root"]
